@@ -3,8 +3,13 @@ package c12
 
 import (
 	"fmt"
+	"github.com/gookit/rux"
+	"net/http/httptest"
+	"os"
+	"path/filepath"
 	"sort"
 	"strings"
+	"sync"
 	"testing"
 
 	"pgregory.net/rapid"
@@ -14,7 +19,14 @@ import (
 	"verifharness/model"
 )
 
-func TestMain(m *testing.M) { ev.Main(m) }
+func TestMain(m *testing.M) {
+	code := m.Run()
+	ev.Dump()
+	if staticDir != "" {
+		_ = os.RemoveAll(staticDir)
+	}
+	os.Exit(code)
+}
 
 type groupRef struct {
 	parent *[]*chain.Stmt
@@ -215,3 +227,64 @@ func sortedKeys(m map[string]bool) []string {
 	sort.Strings(ks)
 	return ks
 }
+
+// propStaticInGroup: the static-file helpers register routes like any other call - inside Group(prefix, ...) the
+// files are reachable exactly under the concatenated prefixes.  (StaticFiles only: in rux, StaticDir and StaticFS
+// strip the un-grouped prefix and answer 404 inside a group - that is so on the unchanged tree and outside this
+// property, whose subject is where routes are reachable, not what a file server does with the path.)
+func propStaticInGroup(t *rapid.T) {
+	ev.Case()
+	staticOnce.Do(func() {
+		base := os.Getenv("VERIF_SANDBOX")
+		if base == "" {
+			base = os.TempDir()
+		}
+		_ = os.MkdirAll(base, 0o755)
+		staticDir, _ = os.MkdirTemp(base, "c12-static-")
+		_ = os.WriteFile(filepath.Join(staticDir, "a.css"), []byte("CSS-A"), 0o644)
+		_ = os.MkdirAll(filepath.Join(staticDir, "sub"), 0o755)
+		_ = os.WriteFile(filepath.Join(staticDir, "sub", "b.css"), []byte("CSS-B"), 0o644)
+	})
+	r := rux.New()
+	depth := rapid.IntRange(1, 3).Draw(t, "depth")
+	prefixes := make([]string, depth)
+	full := ""
+	for i := range prefixes {
+		prefixes[i] = "/" + rapid.StringMatching(`[a-c]{1,2}`).Draw(t, "prefix")
+		full += prefixes[i]
+	}
+	mount := "/" + rapid.SampledFrom([]string{"assets", "s", "static.v1"}).Draw(t, "mount")
+	var reg func(i int)
+	reg = func(i int) {
+		if i == depth {
+			r.StaticFiles(mount, staticDir, "css|js")
+			return
+		}
+		r.Group(prefixes[i], func() { reg(i + 1) })
+	}
+	reg(0)
+	method := rapid.SampledFrom([]string{"GET", "HEAD"}).Draw(t, "method")
+	for _, f := range []struct{ path, want string }{{"a.css", "CSS-A"}, {"sub/b.css", "CSS-B"}} {
+		rec := httptest.NewRecorder()
+		r.ServeHTTP(rec, httptest.NewRequest(method, full+mount+"/"+f.path, nil))
+		ev.Eval()
+		if rec.Code != 200 || (method == "GET" && rec.Body.String() != f.want) {
+			t.Fatalf("StaticFiles(%q) inside groups %v: %s %s answered %d %q, want 200 %q", mount, prefixes, method, full+mount+"/"+f.path, rec.Code, rec.Body.String(), f.want)
+		}
+		// and nowhere else: not without the group prefixes
+		rec = httptest.NewRecorder()
+		r.ServeHTTP(rec, httptest.NewRequest("GET", mount+"/"+f.path, nil))
+		if rec.Code != 404 {
+			t.Fatalf("StaticFiles(%q) inside groups %v is also reachable as %s (%d)", mount, prefixes, mount+"/"+f.path, rec.Code)
+		}
+	}
+	ev.Class("static-files-mounted-inside-groups")
+	ev.NonTrivial(fmt.Sprint(prefixes, mount, method), func() string { return fmt.Sprintf("StaticFiles(%q) inside groups %v, %s", mount, prefixes, method) })
+}
+
+var (
+	staticOnce sync.Once
+	staticDir  string
+)
+
+func TestPropStaticInGroup(t *testing.T) { rapid.Check(t, propStaticInGroup) }
